@@ -66,6 +66,20 @@ def work(item, N):
     """One (mode, pats, flags, exclude, nodes-or-None) obligation."""
     mode, pats, flags, exclude, ngroups = item
     res = {'item': (mode, pats, flags, exclude), 'status': 'ok', 'queries': 0, 'solver_s': 0.0, 'sat': 0, 'unsat': 0, 'unknown': 0}
+    if mode == 'glcount':
+        # capture clause only (REALPATH: the match equivalence is stated without it)
+        res['item'] = ('gl', pats, flags, exclude)
+        try:
+            tinc, _ = e1.real_translate('gl', pats, flags, exclude)
+            g = [re.compile(r).groups for r in tinc]
+        except Exception as ex:  # noqa: BLE001
+            res['status'] = 'translate_raises'
+            res['exc'] = type(ex).__name__
+            return res
+        if g != [ngroups]:
+            res['status'] = 'group_count'
+            res['groups'] = (g[0] if g else None, ngroups)
+        return res
     m = e1.mod_of(mode)
     try:
         tinc, texc = e1.real_translate(mode, pats, flags, exclude)
@@ -169,6 +183,26 @@ def build_items(ctx, rnd):
             items.append(('gl', text, f, None, ng))
         if k % 9 == 0:
             items.append(('gl', text.encode('latin-1'), gfs[k % 3], None, None))
+    # capture clause under every public flag of glob.translate, REALPATH included (the matcher's own globstar captures must not leak)
+    RP = G.REALPATH
+    for k, it in enumerate(paths[:: (5 if quick else 1)]):
+        text = gen.render_path(it)
+        if any(x[0] == 'seg' and regions.star_before_star_group(x[1]) for x in it):
+            continue
+        ng = sum(gen.count_groups(x[1]) for x in it if x[0] == 'seg')
+        for f in (G.EXTGLOB | G.GLOBSTAR | RP, G.EXTGLOB | G.GLOBSTAR | RP | G.DOTGLOB | G.MATCHBASE, G.EXTGLOB | G.GLOBSTARLONG | RP | G.FOLLOW):
+            items.append(('glcount', text, f, None, ng))
+    # NODIR x Windows x bytes: the translate() text of the NODIR exclusion is a separate constant for each combination
+    for k, it in enumerate(paths[:: (12 if quick else 2)]):
+        text = gen.render_path(it)
+        for f in (G.NODIR | G.FORCEWIN | G.EXTGLOB | G.GLOBSTAR, G.NODIR | G.EXTGLOB | G.GLOBSTAR, G.NODIR | G.FORCEWIN | G.DOTGLOB):
+            items.append(('gl', text, f, None, None))
+            items.append(('gl', text.encode('latin-1'), f, None, None))
+    for t in ['a/..', 'a/.', '..', '.', 'a/', 'a', '*/..', '**', '*']:
+        for f in (G.NODIR | G.FORCEWIN, G.NODIR, G.NODIR | G.FORCEWIN | G.GLOBSTAR | G.DOTGLOB):
+            items.append(('gl', t, f, None, None))
+            items.append(('gl', t.encode(), f, None, None))
+            items.append(('fn', t, 0, None, None))
     # lists with exclusions (inline and exclude=)
     texts = [gen.render_nodes(n) for n in segs[:: max(1, len(segs) // (60 if quick else 400))]]
     ptexts = [gen.render_path(p) for p in paths[:: max(1, len(paths) // (60 if quick else 400))]]
